@@ -89,7 +89,7 @@ PROPS = {
     "C13": {
         "lean": ["FH.Props.C13"],
         "engines": ["hist"],
-        "level_text": "Theorems: the lookup address of a return address a is a-1 and of an instruction pointer a is a; unwind_frame depends on a return address only through a-1; for adjacent modules / adjacent FDEs the boundary address resolves to the earlier one as return address and to the later one as instruction pointer. Tie: histories probe every module/FDE/row boundary +-1 in both kinds.",
+        "level_text": "Theorems: the lookup address of a return address a is a-1 and of an instruction pointer a is a; unwind_frame depends on a return address only through a-1; for adjacent modules / adjacent FDEs the boundary address resolves to the earlier one as return address and to the later one as instruction pointer; the same holds at a row boundary inside one FDE (C13_row_boundary), and the whole plan sees only the lookup address (C13_plan_sees_lookup_address). Tie: histories probe every module/FDE/row boundary +-1 in both kinds; model-free boundary scenarios (one or two modules, three presentations) check which FDE and row is consulted.",
         "level_note": _NOTE,
         "statement": "Return addresses are looked up at address-1 in the cache, the module list and the FDE table; instruction pointers exactly.",
     },
@@ -139,8 +139,8 @@ PROPS = {
     },
     "C08": {
         "lean": ["FH.Props.C08"],
-        "engines": ["scn", "hist"],
-        "level_text": "Theorems: the module search is translation invariant (same index and relative address for range, base and address moved together), the unwind plan does not look at mapped addresses, hence the rule for a relocated address under relocated modules is the original rule; stack relocation is proved at the level of the DWARF step (dwarfSpec, identified with both execution paths by C05) for consistently relocated stack words (partial: the whole-walk statement under stack relocation is established by the engine's relocation twins, not by a theorem). Tie: the same program mapped at four different load addresses / stack placements / presentations (incl. crossing 2^63, non-zero stated base, range starting above the base, absolute/pc-relative/text-relative pointer encodings) must unwind to the same frames up to the shifts.",
+        "engines": ["scn", "hist", "macho", "pe"],
+        "level_text": "Theorems: the module search is translation invariant (same index and relative address for range, base and address moved together), the unwind plan does not look at mapped addresses, hence the rule for a relocated address under relocated modules is the original rule; stack relocation is proved at the level of the DWARF step (dwarfSpec, identified with both execution paths by C05) for consistently relocated stack words (partial: the whole-walk statement under stack relocation is established by the engine's relocation twins, not by a theorem). Tie: the same program mapped at four different load addresses / stack placements / presentations (incl. crossing 2^63, non-zero stated base, range starting above the base, absolute/pc-relative/text-relative pointer encodings) must unwind to the same frames up to the shifts. The macho and pe engines replay every ground-truth walk of a Mach-O module / PE image at a second base address and stack (user-space and kernel-style placements whose slide does not fit an i64) and require the frames to differ by exactly the shift.",
         "level_note": _NOTE,
         "statement": "Position independence: module relocation (full, model level) and stack relocation (step level).",
     },
@@ -154,7 +154,7 @@ PROPS = {
     "C02": {
         "lean": ["FH.Props.C02"],
         "engines": ["macho", "ana", "asm"],
-        "level_text": "Theorems (x86-64, for every choice and order of registers, legacy and REX encodings): stopped anywhere in `pop...; ret` the analysed rule restores exactly the rsp/rbp/return address the CPU will have (machine model runPops); stopped after any prefix of the prologue's pushes the rule finds the return address above them; after `push rbp; mov rbp, rsp; push...` it is the frame pointer rule; frameless opcodes give rules that execute the documented layout (rbp slot by position); dispatch: __stubs/__stub_helper precedence and first-frame-only, function starts are leaves, function bytes are exactly the function's slice of the text; __stub_helper tables equal the documented dyld_stub_binder layout on both architectures; arm64 body rules. arm64 prologue/epilogue word scans: partial - modelled (FH/AnaA64.lean) and tied by correspondence and ground truth, not proved sound against a machine model. Tie: ana (hooks, byte for byte) and macho (whole modules, ground-truth walks).",
+        "level_text": "Theorems (x86-64, for every choice and order of registers, legacy and REX encodings): stopped anywhere in `pop...; ret` the analysed rule restores exactly the rsp/rbp/return address the CPU will have (machine model runPops); stopped after any prefix of the prologue's pushes the rule finds the return address above them; after `push rbp; mov rbp, rsp; push...` it is the frame pointer rule; frameless opcodes give rules that execute the documented layout (rbp slot by position: C02_x64_rbp_position_is_push_index, for rbp pushed at any index of the register list); dispatch: __stubs/__stub_helper precedence and first-frame-only, function starts are leaves, function bytes are exactly the function's slice of the text; __stub_helper tables equal the documented dyld_stub_binder layout on both architectures; arm64 body rules. arm64 prologue/epilogue word scans: partial - modelled (FH/AnaA64.lean) and tied by correspondence and ground truth, not proved sound against a machine model. Tie: ana (hooks, byte for byte) and macho (whole modules, ground-truth walks).",
         "level_note": _NOTE + " macho-unwind-info's parser (UnwindInfo::lookup, opcode field extraction) is outside the model; the model takes the parsed opcode, recomputed by the harness with the real parser, and the writer exercises regular and compressed pages.",
         "statement": "Mach-O compact unwind: x86-64 prologue/epilogue analysis sound for all push/pop sequences; body rules exact; dispatch order; stub tables; arm64 partial (bodies and stubs proved, word scans by correspondence).",
     },
